@@ -1148,18 +1148,18 @@ Proof.
 Qed.
 
 (* ================================================================ process_nlri_change: where a Reach comes from *)
-Lemma addpath_reaches_In : forall fixed x d rep top e r d' pid nh out s,
-  addpath_reaches fixed x d rep e top = Ok r -> In (Reach d' pid nh out s) (fst r) ->
+Lemma addpath_reaches_In : forall x d rep top e r d' pid nh out s,
+  addpath_reaches x d rep e top = Ok r -> In (Reach d' pid nh out s) (fst r) ->
   exists a, In (pid, a, nh, s) top /\ export_attrs x a = Ok out.
 Proof.
-  intros fixed x d rep. induction top as [|[[[pid0 a0] nh0] s0] t IH]; intros e r d' pid nh out s H Hin.
+  intros x d rep. induction top as [|[[[pid0 a0] nh0] s0] t IH]; intros e r d' pid nh out s H Hin.
   - cbn in H. inversion H; subst. contradiction.
   - cbn [addpath_reaches] in H.
     destruct (negb (em_contains_path e d pid0)
               || match rep with Some r0 => r0 =? pid0 | None => false end
-              || (fixed && src_llgr s0)).
+              ).
     + destruct (export_attrs x a0) as [a'|] eqn:Ea; [|discriminate]. cbn [rbind] in H.
-      destruct (addpath_reaches fixed x d rep (em_mark_sent e d pid0) t) as [r'|] eqn:Er; [|discriminate].
+      destruct (addpath_reaches x d rep (em_mark_sent e d pid0) t) as [r'|] eqn:Er; [|discriminate].
       cbn [rbind] in H. inversion H; subst r. cbn [fst] in Hin. destruct Hin as [Hin|Hin].
       * inversion Hin; subst. exists a0. split; [left; reflexivity | exact Ea].
       * destruct (IH _ _ _ _ _ _ _ Er Hin) as (a & Ha & Hx). exists a. split; [right; exact Ha | exact Hx].
@@ -1172,16 +1172,16 @@ Proof.
   destruct l as [|b l]; [contradiction|]. cbn [firstn] in H. destruct H as [H|H]; [left; exact H | right; apply IH; exact H].
 Qed.
 
-Lemma reach_origin : forall fixed x pol emax raddr cid c e r d pid nh out s,
-  process_change_v fixed x pol emax raddr cid c e = Ok r ->
+Lemma reach_origin : forall x pol emax raddr cid c e r d pid nh out s,
+  process_change x pol emax raddr cid c e = Ok r ->
   In (Reach d pid nh out s) (fst r) ->
   exists p a, In p (c_paths c) /\ visible x raddr cid p = true /\ s = p_src p
     /\ policy_stage x pol cid (c_family c) p = Some (a, nh)
     /\ export_attrs x (llgr_stage p a) = Ok out.
 Proof.
-  intros fixed x pol emax raddr cid c e r d pid nh out s H Hin. unfold process_change_v in H.
+  intros x pol emax raddr cid c e r d pid nh out s H Hin. unfold process_change in H.
   destruct (emax =? 1).
-  - destruct (negb (c_best_changed c) && _); [inversion H; subst; contradiction|].
+  - destruct (negb (c_best_changed c)); [inversion H; subst; contradiction|].
     destruct (c_paths c) as [|best rest] eqn:Ep.
     + destruct (em_was_sent e (c_dest c)); inversion H; subst; cbn in Hin; intuition discriminate.
     + destruct (visible x raddr cid best) eqn:Ev.
@@ -1192,11 +1192,11 @@ Proof.
         -- destruct (em_was_sent e (c_dest c)); inversion H; subst; cbn in Hin; intuition discriminate.
       * destruct (em_was_sent e (c_dest c)); inversion H; subst; cbn in Hin; intuition discriminate.
   - destruct (negb (c_any_changed c)); [inversion H; subst; contradiction|].
-    match type of H with rbind (addpath_reaches _ _ _ _ ?e1 ?top) _ = _ =>
-      destruct (addpath_reaches fixed x (c_dest c) (c_replaced c) e1 top) as [r'|] eqn:Er; [|discriminate] end.
+    match type of H with rbind (addpath_reaches _ _ _ ?e1 ?top) _ = _ =>
+      destruct (addpath_reaches x (c_dest c) (c_replaced c) e1 top) as [r'|] eqn:Er; [|discriminate] end.
     cbn [rbind] in H. inversion H; subst r. cbn [fst] in Hin. apply in_app_or in Hin. destruct Hin as [Hin|Hin].
     + apply in_map_iff in Hin. destruct Hin as (q & Hq & _). discriminate.
-    + destruct (addpath_reaches_In _ _ _ _ _ _ _ _ _ _ _ _ Er Hin) as (a & Ha & Hx).
+    + destruct (addpath_reaches_In _ _ _ _ _ _ _ _ _ _ _ Er Hin) as (a & Ha & Hx).
       apply in_flat_map in Ha. destruct Ha as (p & Hp & Ha).
       destruct (policy_stage x pol cid (c_family c) p) as [[a1 nh1]|] eqn:Es; [|contradiction].
       destruct Ha as [Ha|[]]. inversion Ha; subst.
@@ -1284,7 +1284,7 @@ Theorem C09_no_echo : forall x pol emax raddr cid c e d pid nh out s,
   advertised x pol emax raddr cid c e d pid nh out s -> ~ learned_from s raddr.
 Proof.
   intros x pol emax raddr cid c e d pid nh out s (r & H & Hin) Hl.
-  destruct (reach_origin _ _ _ _ _ _ _ _ _ _ _ _ _ _ H Hin) as (p & a & Hp & Hv & Hs & _).
+  destruct (reach_origin _ _ _ _ _ _ _ _ _ _ _ _ _ H Hin) as (p & a & Hp & Hv & Hs & _).
   destruct (visible_parts _ _ _ _ Hv) as (H1 & _ & _). subst s. unfold learned_from in Hl.
   rewrite Hl in H1. assert (ip_eqb raddr raddr = true) by (apply ip_eqb_eq; reflexivity). congruence.
 Qed.
@@ -1295,7 +1295,7 @@ Theorem C09_no_ibgp_nonclient_to_nonclient : forall x pol emax raddr cid c e d p
   x_role x = Ibgp -> ~ nonclient_ibgp_source s.
 Proof.
   intros x pol emax raddr cid c e d pid nh out s (r & H & Hin) Hr (ps & Hs & Hrole & Has).
-  destruct (reach_origin _ _ _ _ _ _ _ _ _ _ _ _ _ _ H Hin) as (p & a & Hp & Hv & Hsp & _).
+  destruct (reach_origin _ _ _ _ _ _ _ _ _ _ _ _ _ H Hin) as (p & a & Hp & Hv & Hsp & _).
   destruct (visible_parts _ _ _ _ Hv) as (_ & H2 & _). rewrite <- Hsp, Hs, Hr in H2.
   unfold ibgp_split_horizon_suppress, is_ibgp_learned, src_is_rr_client in H2.
   cbn [role_is_ibgp negb src_is_local src_rasn src_lasn src_role andb] in H2.
@@ -1307,7 +1307,7 @@ Theorem C09_no_rs_boundary_crossing : forall x pol emax raddr cid c e d pid nh o
   advertised x pol emax raddr cid c e d pid nh out s -> ~ crosses_rs_boundary s (x_role x).
 Proof.
   intros x pol emax raddr cid c e d pid nh out s (r & H & Hin) Hc.
-  destruct (reach_origin _ _ _ _ _ _ _ _ _ _ _ _ _ _ H Hin) as (p & a & Hp & Hv & Hsp & _).
+  destruct (reach_origin _ _ _ _ _ _ _ _ _ _ _ _ _ H Hin) as (p & a & Hp & Hv & Hsp & _).
   destruct (visible_parts _ _ _ _ Hv) as (_ & _ & H3). rewrite <- Hsp in H3.
   unfold rs_isolation_suppress, src_is_rs_client in H3. apply negb_false_iff in H3. apply eqb_prop in H3.
   apply Hc. split; intro E.
@@ -1373,7 +1373,7 @@ Lemma advertised_filter_only : forall x pol emax raddr cid c e d pid nh out s,
        = Ok out.
 Proof.
   intros x pol emax raddr cid c e d pid nh out s Hf (r & H & Hin).
-  destruct (reach_origin _ _ _ _ _ _ _ _ _ _ _ _ _ _ H Hin) as (p & a & Hp & Hv & Hs & Hst & Hx).
+  destruct (reach_origin _ _ _ _ _ _ _ _ _ _ _ _ _ H Hin) as (p & a & Hp & Hv & Hs & Hst & Hx).
   destruct (policy_stage_inv _ _ _ _ _ _ _ Hst) as (a1 & Hpol & Ha). apply Hf in Hpol. inversion Hpol; subst.
   exists p. repeat split; auto.
 Qed.
@@ -1440,7 +1440,7 @@ Theorem C09_ebgp_any_policy : forall x pol emax raddr cid c e d pid nh out s,
        /\ pol s a0 nh0 (p_nh p) (role_eqb (x_role x) ConfedEbgp) = Some (a1, nh).
 Proof.
   intros x pol emax raddr cid c e d pid nh out s Hr (r & H & Hin).
-  destruct (reach_origin _ _ _ _ _ _ _ _ _ _ _ _ _ _ H Hin) as (p & a & Hp & Hv & Hs & Hst & Hx).
+  destruct (reach_origin _ _ _ _ _ _ _ _ _ _ _ _ _ H Hin) as (p & a & Hp & Hv & Hs & Hst & Hx).
   split; [exact (export_attrs_ebgp_strips x _ out Hr Hx)|].
   destruct (policy_stage_inv _ _ _ _ _ _ _ Hst) as (a1 & Hpol & Ha).
   destruct (pre_policy_defaults x (p_attrs p) (p_nh p) (c_family c) (src_is_local (p_src p))) as [a0 nh0] eqn:E.
@@ -1486,7 +1486,7 @@ Theorem C09_ibgp_local_pref_any_policy : forall x pol emax raddr cid c e d pid n
   has_code LOCAL_PREF out = true.
 Proof.
   intros x pol emax raddr cid c e d pid nh out s Hr Hk Hd (r & H & Hin).
-  destruct (reach_origin _ _ _ _ _ _ _ _ _ _ _ _ _ _ H Hin) as (p & a & Hp & Hv & Hs & Hst & Hx).
+  destruct (reach_origin _ _ _ _ _ _ _ _ _ _ _ _ _ H Hin) as (p & a & Hp & Hv & Hs & Hst & Hx).
   destruct (policy_stage_inv _ _ _ _ _ _ _ Hst) as (a1 & Hpol & Ha).
   assert (Hda : decodable (llgr_stage p a)).
   { subst a. apply llgr_stage_decodable, reflect_stage_decodable.
@@ -1559,14 +1559,14 @@ Qed.
 Lemma llgr_comm_not_opaque : forall c, llgr_comm_ok c -> is_opaque c = false.
 Proof. intros c (pre & post & Hd & _). unfold is_opaque. rewrite Hd. reflexivity. Qed.
 
-Theorem C09_llgr_stale_marked : forall fixed x pol emax raddr cid c e r d pid nh out s,
+Theorem C09_llgr_stale_marked : forall x pol emax raddr cid c e r d pid nh out s,
   policy_keeps_decodable pol ->
   (forall p, In p (c_paths c) -> decodable (p_attrs p)) ->
-  process_change_v fixed x pol emax raddr cid c e = Ok r -> In (Reach d pid nh out s) (fst r) ->
+  process_change x pol emax raddr cid c e = Ok r -> In (Reach d pid nh out s) (fst r) ->
   src_llgr s = true -> carries_llgr_stale out.
 Proof.
-  intros fixed x pol emax raddr cid c e r d pid nh out s Hk Hd H Hin Hl.
-  destruct (reach_origin _ _ _ _ _ _ _ _ _ _ _ _ _ _ H Hin) as (p & a & Hp & Hv & Hs & Hst & Hx).
+  intros x pol emax raddr cid c e r d pid nh out s Hk Hd H Hin Hl.
+  destruct (reach_origin _ _ _ _ _ _ _ _ _ _ _ _ _ H Hin) as (p & a & Hp & Hv & Hs & Hst & Hx).
   destruct (policy_stage_inv _ _ _ _ _ _ _ Hst) as (a1 & Hpol & Ha).
   assert (Hda : decodable a).
   { subst a. apply reflect_stage_decodable. eapply Hk; [|exact Hpol]. apply pre_policy_decodable. apply Hd. exact Hp. }
@@ -1753,111 +1753,6 @@ Qed.
 Lemma firstn_single : forall A n (a : A), firstn n [a] = match n with O => [] | S _ => [a] end.
 Proof. intros A n a. destruct n; [reflexivity|]. cbn [firstn]. rewrite firstn_nil. reflexivity. Qed.
 
-Ltac llgr_simp H :=
-  cbn [flat_map app map fst snd p_lpid p_src filter mem negb orb andb N.eqb Pos.eqb N.leb N.compare Pos.compare
-       Pos.compare_cont sort_n fold_right insert_sorted fold_left em_sent_path_ids em_contains_path em_mark_sent
-       em_mark_withdrawn alookup aset aremove add_n remove_n addpath_reaches src_llgr set_llgr ps_llgr rbind] in H.
-
-(* After the fix: whatever a neighbour holds for the route once the LLGR period
-   of its source has begun carries LLGR_STALE (it was re-advertised with the
-   community, or withdrawn). *)
-Theorem C09_llgr_stale_readvertised : forall x pol emax raddr cid ps nh attrs ops1 ops2 e v,
-  policy_keeps_decodable pol -> decodable attrs ->
-  llgr_scenario x pol emax raddr cid ps nh attrs = Ok (ops1, ops2, e) ->
-  view_after (ops1 ++ ops2) 1 (if emax =? 1 then 0 else 1) None = Some v ->
-  carries_llgr_stale v.
-Proof.
-  intros x pol emax raddr cid ps nh attrs ops1 ops2 e v Hk Hd Hsc Hview.
-  unfold llgr_scenario, llgr_scenario_v in Hsc.
-  destruct (process_change_v true x pol emax raddr cid (llgr_change1 ps nh attrs)
-              (if emax =? 1 then ENone else EAddPath [])) as [r1|] eqn:E1; [|discriminate].
-  cbn [rbind] in Hsc.
-  destruct (process_change_v true x pol emax raddr cid (llgr_change2 ps nh attrs) (snd r1)) as [r2|] eqn:E2; [|discriminate].
-  cbn [rbind] in Hsc. inversion Hsc; subst ops1 ops2 e. clear Hsc.
-  rewrite view_after_app in Hview.
-  destruct (view_after_cases _ _ _ _ _ Hview) as [(nh' & s & Hin) | (Hv0 & Hnot)].
-  - (* the view comes from a Reach of the second phase *)
-    destruct (reach_origin _ _ _ _ _ _ _ _ _ _ _ _ _ _ E2 Hin) as (p & a & Hp & _ & Hs & _).
-    eapply (C09_llgr_stale_marked true x pol emax raddr cid (llgr_change2 ps nh attrs)); [exact Hk | | exact E2 | exact Hin |].
-    + intros q [Hq|[]]. subst q. exact Hd.
-    + destruct Hp as [Hp|[]]. subst p s. reflexivity.
-  - (* the view would be the first-phase copy, untouched: impossible *)
-    exfalso. unfold process_change_v in E1, E2.
-    destruct (emax =? 1) eqn:Em.
-    + cbn [llgr_change1 llgr_change2 c_best_changed c_any_changed c_paths c_dest c_family negb andb src_llgr p_src set_llgr ps_llgr] in E1, E2.
-      destruct (visible x raddr cid _) eqn:V1 in E1.
-      * destruct (policy_stage x pol cid IPV4_UNICAST _) as [[a1 nh1]|] eqn:S1 in E1.
-        -- destruct (export_attrs x _) as [o1|] eqn:X1 in E1; [|discriminate]. cbn [rbind] in E1.
-           inversion E1; subst r1. clear E1. cbn [snd em_mark_sent em_was_sent mem add_n app N.eqb orb] in E2.
-           destruct (visible x raddr cid _) eqn:V2 in E2.
-           ++ destruct (policy_stage x pol cid IPV4_UNICAST _) as [[a2 nh2]|] eqn:S2 in E2.
-              ** destruct (export_attrs x _) as [o2|] eqn:X2 in E2; [|discriminate]. cbn [rbind] in E2.
-                 inversion E2; subst r2. specialize (Hnot _ (or_introl eq_refl)). discriminate.
-              ** cbn in E2. inversion E2; subst r2. specialize (Hnot _ (or_introl eq_refl)). discriminate.
-           ++ cbn in E2. inversion E2; subst r2. specialize (Hnot _ (or_introl eq_refl)). discriminate.
-        -- cbn in E1. inversion E1; subst r1. discriminate.
-      * cbn in E1. inversion E1; subst r1. discriminate.
-    + cbn [llgr_change1 llgr_change2 c_best_changed c_any_changed c_paths c_dest c_family c_replaced negb filter] in E1, E2.
-      destruct (visible x raddr cid _) eqn:V1 in E1.
-      2:{ rewrite !firstn_nil in E1. cbn in E1. inversion E1; subst r1. discriminate. }
-      rewrite !firstn_single in E1.
-      destruct (N.to_nat emax) as [|n] eqn:En.
-      { cbn in E1. inversion E1; subst r1. discriminate. }
-      cbn [flat_map app] in E1.
-      destruct (policy_stage x pol cid IPV4_UNICAST _) as [[a1 nh1]|] eqn:S1 in E1.
-      2:{ cbn in E1. inversion E1; subst r1. discriminate. }
-      llgr_simp E1.
-      destruct (export_attrs x _) as [o1|] eqn:X1 in E1; [|discriminate]. llgr_simp E1.
-      inversion E1; subst r1. clear E1.
-      llgr_simp E2.
-      destruct (visible x raddr cid _) eqn:V2 in E2.
-      2:{ cbn in E2. inversion E2; subst r2. specialize (Hnot _ (or_introl eq_refl)). discriminate. }
-      rewrite !firstn_single in E2. cbn [flat_map app] in E2.
-      destruct (policy_stage x pol cid IPV4_UNICAST _) as [[a2 nh2]|] eqn:S2 in E2.
-      2:{ cbn in E2. inversion E2; subst r2. specialize (Hnot _ (or_introl eq_refl)). discriminate. }
-      llgr_simp E2.
-      destruct (export_attrs x _) as [o2|] eqn:X2 in E2; [|discriminate]. llgr_simp E2.
-      inversion E2; subst r2. specialize (Hnot _ (or_introl eq_refl)). discriminate.
-Qed.
-
-(* Before the fix the same statement is false: a best-only eBGP neighbour keeps
-   the copy without LLGR_STALE (the case replayed on the real code, corpus/C09). *)
-Definition pre_fix_llgr_statement : Prop :=
-  forall x pol emax raddr cid ps nh attrs ops1 ops2 e v,
-    policy_keeps_decodable pol -> decodable attrs ->
-    llgr_scenario_v false x pol emax raddr cid ps nh attrs = Ok (ops1, ops2, e) ->
-    view_after (ops1 ++ ops2) 1 (if emax =? 1 then 0 else 1) None = Some v ->
-    carries_llgr_stale v.
-
-Lemma carries_llgr_stale_dec_false : forall out,
-  find_code COMMUNITY out = None -> ~ carries_llgr_stale out.
-Proof. intros out H (c & pre & post & E & _). congruence. Qed.
-
-Theorem C09_llgr_stale_readvertised_refuted : ~ pre_fix_llgr_statement.
-Proof.
-  intro H.
-  pose (attrs := [mk_val ORIGIN 64 0; mk_bin AS_PATH 64 (encode_path [(2, [65002])])]).
-  assert (Hd : decodable attrs).
-  { unfold decodable, attrs. split; [|split]; intros a Hin; cbn [In] in Hin.
-    - intro Ho. repeat (destruct Hin as [Hin|Hin]; [subst a; discriminate|]). contradiction.
-    - intro Hc. repeat (destruct Hin as [Hin|Hin]; [subst a; try discriminate|]); [|contradiction].
-      exists [(2, [65002])]. unfold is_path. cbn [mk_bin a_code a_data]. repeat split. repeat constructor; cbn; lia.
-    - intro Hc. repeat (destruct Hin as [Hin|Hin]; [subst a; discriminate|]). contradiction. }
-  specialize (H (ex_ctx Ebgp 0) no_policy 1 (ip4 10 0 0 1) None (ex_peer Ebgp 65002 false) (Some (NhV4 [10; 0; 0; 9])) attrs).
-  destruct (llgr_scenario_v false (ex_ctx Ebgp 0) no_policy 1 (ip4 10 0 0 1) None (ex_peer Ebgp 65002 false)
-              (Some (NhV4 [10; 0; 0; 9])) attrs) as [[[o1 o2] e]|] eqn:E; [|vm_compute in E; discriminate].
-  vm_compute in E. inversion E; subst o1 o2 e. clear E.
-  refine (carries_llgr_stale_dec_false _ _ (H _ _ _ _ (filter_only_decodable _ filter_only_no_policy) Hd eq_refl eq_refl)).
-  reflexivity.
-Qed.
-
-(* the scenario is real: the route is advertised in the first phase and again,
-   marked, in the second *)
-Example ex_llgr_scenario : exists nh1 a1 s1 nh2 a2 s2 e,
-  llgr_scenario (ex_ctx Ebgp 0) no_policy 1 (ip4 10 0 0 1) None (ex_peer Ebgp 65002 false) (Some (NhV4 [10; 0; 0; 9])) ex_attrs
-  = Ok ([Reach 1 0 nh1 a1 s1], [Reach 1 0 nh2 a2 s2], e).
-Proof. do 7 eexists. vm_compute. reflexivity. Qed.
-
 (* ================================================================ real export policies: next-hop and MED actions *)
 Lemma stmt_policy_inv : forall x raddr st default s a nh onh ic a1 nh1,
   stmt_policy x raddr st default s a nh onh ic = Some (a1, nh1) ->
@@ -1897,7 +1792,7 @@ Theorem C09_ebgp_policy_med : forall x st default emax raddr cid c e d pid nh ou
     /\ a_data m = DVal (match act with MedMod dl => clamp_u32 dl | MedReplace v => clamp_u32 v end).
 Proof.
   intros x st default emax raddr cid c e d pid nh out s act Hr Hact (r & H & Hin).
-  destruct (reach_origin _ _ _ _ _ _ _ _ _ _ _ _ _ _ H Hin) as (p & a & Hp & Hv & Hs & Hst & Hx).
+  destruct (reach_origin _ _ _ _ _ _ _ _ _ _ _ _ _ H Hin) as (p & a & Hp & Hv & Hs & Hst & Hx).
   destruct (policy_stage_inv _ _ _ _ _ _ _ Hst) as (a1 & Hpol & Ha).
   apply stmt_policy_inv in Hpol. rewrite Hact in Hpol.
   pose proof (pre_policy_no_med x (p_attrs p) (p_nh p) (c_family c) (src_is_local (p_src p)) Hr) as Hno.
@@ -1980,27 +1875,27 @@ Proof.
   apply pre_policy_decodable. exact Hd.
 Qed.
 
-Lemma addpath_reaches_no_panic : forall fixed x d rep top e,
+Lemma addpath_reaches_no_panic : forall x d rep top e,
   wf_ctx x -> (forall pid a nh s, In (pid, a, nh, s) top -> decodable a) ->
-  exists r, addpath_reaches fixed x d rep e top = Ok r.
+  exists r, addpath_reaches x d rep e top = Ok r.
 Proof.
-  intros fixed x d rep. induction top as [|[[[pid a] nh] s] t IH]; intros e Hx Hd; [eexists; reflexivity|].
+  intros x d rep. induction top as [|[[[pid a] nh] s] t IH]; intros e Hx Hd; [eexists; reflexivity|].
   cbn [addpath_reaches].
   assert (Ht : forall pid a nh s, In (pid, a, nh, s) t -> decodable a) by (intros; eapply Hd; right; eassumption).
-  destruct (negb (em_contains_path e d pid) || match rep with Some r0 => r0 =? pid | None => false end || (fixed && src_llgr s)).
+  destruct (negb (em_contains_path e d pid) || match rep with Some r0 => r0 =? pid | None => false end).
   - destruct (export_attrs_no_panic x a Hx (Hd pid a nh s (or_introl eq_refl))) as [a' Ea]. rewrite Ea. cbn [rbind].
     destruct (IH (em_mark_sent e d pid) Hx Ht) as [r Hr]. rewrite Hr. cbn [rbind]. eauto.
   - apply IH; assumption.
 Qed.
 
 (* process_nlri_change cannot panic on attribute vectors the decoder produces *)
-Theorem C09_no_panic_on_decodable : forall fixed x pol emax raddr cid c e,
+Theorem C09_no_panic_on_decodable : forall x pol emax raddr cid c e,
   wf_ctx x -> policy_keeps_decodable pol ->
   (forall p, In p (c_paths c) -> decodable (p_attrs p)) ->
-  exists r, process_change_v fixed x pol emax raddr cid c e = Ok r.
+  exists r, process_change x pol emax raddr cid c e = Ok r.
 Proof.
-  intros fixed x pol emax raddr cid c e Hx Hk Hd. unfold process_change_v. destruct (emax =? 1).
-  - destruct (negb (c_best_changed c) && _); [eauto|].
+  intros x pol emax raddr cid c e Hx Hk Hd. unfold process_change. destruct (emax =? 1).
+  - destruct (negb (c_best_changed c)); [eauto|].
     destruct (c_paths c) as [|best rest] eqn:Ep; [destruct (em_was_sent e (c_dest c)); eauto|].
     destruct (visible x raddr cid best); [|destruct (em_was_sent e (c_dest c)); eauto].
     destruct (policy_stage x pol cid (c_family c) best) as [[a nh]|] eqn:Es; [|destruct (em_was_sent e (c_dest c)); eauto].
@@ -2008,8 +1903,8 @@ Proof.
     destruct (export_attrs_no_panic x _ Hx (policy_stage_decodable _ _ _ _ _ _ _ Hk Hb Es)) as [a' Ea].
     rewrite Ea. cbn [rbind]. eauto.
   - destruct (negb (c_any_changed c)); [eauto|].
-    match goal with |- exists r, rbind (addpath_reaches _ _ _ _ ?e1 ?top) _ = _ =>
-      destruct (addpath_reaches_no_panic fixed x (c_dest c) (c_replaced c) top e1 Hx) as [r Hr] end.
+    match goal with |- exists r, rbind (addpath_reaches _ _ _ ?e1 ?top) _ = _ =>
+      destruct (addpath_reaches_no_panic x (c_dest c) (c_replaced c) top e1 Hx) as [r Hr] end.
     { intros pid a nh s Hin. apply in_flat_map in Hin. destruct Hin as (p & Hp & Hin).
       destruct (policy_stage x pol cid (c_family c) p) as [[a1 nh1]|] eqn:Es; [|contradiction].
       destruct Hin as [Hin|[]]. inversion Hin; subst.
@@ -2067,107 +1962,6 @@ Lemma In_sort_n : forall x l, In x (sort_n l) <-> In x l.
 Proof.
   intros x. induction l as [|y l IH]; [reflexivity|].
   unfold sort_n in *. cbn [fold_right]. rewrite In_insert_sorted, IH. cbn [In]. intuition.
-Qed.
-
-Lemma addpath_reaches_emits : forall x d rep top e r pid a nh s,
-  addpath_reaches true x d rep e top = Ok r ->
-  In (pid, a, nh, s) top -> src_llgr s = true ->
-  exists out, In (Reach d pid nh out s) (fst r).
-Proof.
-  intros x d rep. induction top as [|[[[pid0 a0] nh0] s0] t IH]; intros e r pid a nh s H Hin Hl; [contradiction|].
-  cbn [addpath_reaches] in H. destruct Hin as [Hin|Hin].
-  - inversion Hin; subst. rewrite Hl in H. cbn [andb] in H. rewrite orb_true_r in H.
-    destruct (export_attrs x a) as [a'|]; [|discriminate]. cbn [rbind] in H.
-    destruct (addpath_reaches true x d rep (em_mark_sent e d pid) t) as [r'|]; [|discriminate].
-    cbn [rbind] in H. inversion H; subst. exists a'. left. reflexivity.
-  - destruct (negb (em_contains_path e d pid0) || match rep with Some r0 => r0 =? pid0 | None => false end
-              || (true && src_llgr s0)).
-    + destruct (export_attrs x a0) as [a'|]; [|discriminate]. cbn [rbind] in H.
-      destruct (addpath_reaches true x d rep (em_mark_sent e d pid0) t) as [r'|] eqn:Er; [|discriminate].
-      cbn [rbind] in H. inversion H; subst. destruct (IH _ _ _ _ _ _ Er Hin Hl) as [out Hout].
-      exists out. right. exact Hout.
-    + exact (IH _ _ _ _ _ _ H Hin Hl).
-Qed.
-
-(* After the fix: a change with any_changed for a destination whose paths are all
-   LLGR-stale touches everything the neighbour holds for that destination: what
-   was advertised is re-advertised or withdrawn. *)
-Theorem C09_llgr_refresh_best_only : forall x pol raddr cid c e r,
-  process_change x pol 1 raddr cid c e = Ok r ->
-  c_any_changed c = true -> c_paths c <> [] ->
-  (forall p, In p (c_paths c) -> src_llgr (p_src p) = true) ->
-  em_was_sent e (c_dest c) = true ->
-  exists op, In op (fst r) /\ touches (c_dest c) 0 op = true.
-Proof.
-  intros x pol raddr cid c e r H Hany Hne Hst Hsent.
-  unfold process_change, process_change_v in H. cbn [N.eqb Pos.eqb] in H.
-  destruct (c_paths c) as [|best rest] eqn:Ep; [contradiction|].
-  rewrite Hany, (Hst best (or_introl eq_refl)) in H. cbn [andb negb] in H. rewrite andb_false_r in H.
-  assert (Ht : forall nh a s, touches (c_dest c) 0 (Reach (c_dest c) 0 nh a s) = true)
-    by (intros; cbn [touches]; rewrite !N.eqb_refl; reflexivity).
-  assert (Hu : touches (c_dest c) 0 (Unreach (c_dest c) 0) = true)
-    by (cbn [touches]; rewrite !N.eqb_refl; reflexivity).
-  rewrite Hsent in H.
-  destruct (visible x raddr cid best).
-  - destruct (policy_stage x pol cid (c_family c) best) as [[a nh]|].
-    + destruct (export_attrs x (llgr_stage best a)) as [a'|]; cbn [rbind] in H; [|discriminate].
-      inversion H; subst. eexists. split; [left; reflexivity | apply Ht].
-    + inversion H; subst. eexists. split; [left; reflexivity | apply Hu].
-  - inversion H; subst. eexists. split; [left; reflexivity | apply Hu].
-Qed.
-
-Theorem C09_llgr_refresh_addpath : forall x pol emax raddr cid c e r pid,
-  emax <> 1 -> process_change x pol emax raddr cid c e = Ok r ->
-  c_any_changed c = true ->
-  (forall p, In p (c_paths c) -> src_llgr (p_src p) = true) ->
-  was_sent_path e (c_dest c) pid ->
-  exists op, In op (fst r) /\ touches (c_dest c) pid op = true.
-Proof.
-  intros x pol emax raddr cid c e r pid Hem H Hany Hst Hsent.
-  unfold process_change, process_change_v in H. apply N.eqb_neq in Hem. rewrite Hem, Hany in H. cbn [negb] in H.
-  match type of H with rbind (addpath_reaches _ _ _ _ _ ?top) _ = _ => set (TOP := top) in * end.
-  match type of H with rbind (addpath_reaches _ _ _ _ ?e1 _) _ = _ =>
-    destruct (addpath_reaches true x (c_dest c) (c_replaced c) e1 TOP) as [r'|] eqn:Er; [|cbn [rbind] in H; discriminate] end.
-  cbn [rbind] in H. inversion H; subst r. clear H. cbn [fst].
-  destruct (mem pid (map (fun t : N * list attr * option nexthop * source => fst (fst (fst t))) TOP)) eqn:Ecur.
-  - (* still in the top-N: re-advertised *)
-    apply mem_In in Ecur. apply in_map_iff in Ecur. destruct Ecur as ([[[pid' a] nh] s] & Hp & Hin). cbn [fst] in Hp. subst pid'.
-    assert (Hl : src_llgr s = true).
-    { unfold TOP in Hin. apply in_flat_map in Hin. destruct Hin as (p & Hp & Hin).
-      destruct (policy_stage x pol cid (c_family c) p) as [[a1 nh1]|]; [|contradiction].
-      destruct Hin as [Hin|[]]. inversion Hin; subst. apply Hst.
-      apply In_firstn in Hp. apply filter_In in Hp. tauto. }
-    destruct (addpath_reaches_emits _ _ _ _ _ _ _ _ _ _ Er Hin Hl) as [out Hout].
-    exists (Reach (c_dest c) pid nh out s). split; [apply in_or_app; right; exact Hout|].
-    cbn [touches]. rewrite !N.eqb_refl. reflexivity.
-  - (* no longer there: withdrawn *)
-    exists (Unreach (c_dest c) pid). split; [|cbn [touches]; rewrite !N.eqb_refl; reflexivity].
-    apply in_or_app. left. apply in_map_iff. exists pid. split; [reflexivity|].
-    apply In_sort_n. apply filter_In. split; [exact Hsent|]. rewrite Ecur. reflexivity.
-Qed.
-
-(* ... hence the copy a neighbour holds afterwards carries LLGR_STALE *)
-Theorem C09_llgr_view_refreshed : forall x pol emax raddr cid c e r pid v0 v,
-  policy_keeps_decodable pol ->
-  (forall p, In p (c_paths c) -> decodable (p_attrs p) /\ src_llgr (p_src p) = true) ->
-  c_any_changed c = true ->
-  (if emax =? 1 then pid = 0 /\ c_paths c <> [] /\ em_was_sent e (c_dest c) = true
-   else was_sent_path e (c_dest c) pid) ->
-  process_change x pol emax raddr cid c e = Ok r ->
-  view_after (fst r) (c_dest c) pid v0 = Some v -> carries_llgr_stale v.
-Proof.
-  intros x pol emax raddr cid c e r pid v0 v Hk Hp Hany Hsent H Hview.
-  destruct (view_after_cases _ _ _ _ _ Hview) as [(nh & s & Hin) | (_ & Hnot)].
-  - destruct (reach_origin _ _ _ _ _ _ _ _ _ _ _ _ _ _ H Hin) as (p & a & Hpin & _ & Hs & _).
-    eapply (C09_llgr_stale_marked true); [exact Hk | intros q Hq; apply Hp; exact Hq | exact H | exact Hin |].
-    subst s. apply Hp. exact Hpin.
-  - exfalso. destruct (emax =? 1) eqn:Em.
-    + apply N.eqb_eq in Em. subst emax. destruct Hsent as (Hpid & Hne & Hws). subst pid.
-      destruct (C09_llgr_refresh_best_only x pol raddr cid c e r H Hany Hne (fun p Hq => proj2 (Hp p Hq)) Hws) as (op & Hop & Ht).
-      rewrite (Hnot op Hop) in Ht. discriminate.
-    + apply N.eqb_neq in Em.
-      destruct (C09_llgr_refresh_addpath x pol emax raddr cid c e r pid Em H Hany (fun p Hq => proj2 (Hp p Hq)) Hsent) as (op & Hop & Ht).
-      rewrite (Hnot op Hop) in Ht. discriminate.
 Qed.
 
 (* ================================================================ the filters are exactly the rules *)
@@ -2238,21 +2032,21 @@ Qed.
 (* best-only branch, completeness: a best path that may be sent and that the policy
    accepts IS advertised, with the rewritten attributes; otherwise what was sent is
    withdrawn *)
-Theorem C09_best_only_complete : forall fixed x pol raddr cid c e best rest,
+Theorem C09_best_only_complete : forall x pol raddr cid c e best rest,
   c_best_changed c = true -> c_paths c = best :: rest ->
   (forall a nh out,
      visible x raddr cid best = true ->
      policy_stage x pol cid (c_family c) best = Some (a, nh) ->
      export_attrs x (llgr_stage best a) = Ok out ->
-     process_change_v fixed x pol 1 raddr cid c e
+     process_change x pol 1 raddr cid c e
      = Ok ([Reach (c_dest c) 0 nh out (p_src best)], em_mark_sent e (c_dest c) 0))
   /\ ((visible x raddr cid best = false \/ policy_stage x pol cid (c_family c) best = None) ->
-      process_change_v fixed x pol 1 raddr cid c e
+      process_change x pol 1 raddr cid c e
       = if em_was_sent e (c_dest c)
         then Ok ([Unreach (c_dest c) 0], em_mark_withdrawn e (c_dest c) 0)
         else Ok ([], e)).
 Proof.
-  intros fixed x pol raddr cid c e best rest Hb Hp. unfold process_change_v. cbn [N.eqb Pos.eqb].
+  intros x pol raddr cid c e best rest Hb Hp. unfold process_change. cbn [N.eqb Pos.eqb].
   rewrite Hb, Hp. cbn [negb andb]. split.
   - intros a nh out Hv Hs Hx. rewrite Hv, Hs, Hx. reflexivity.
   - intros [Hv|Hs].
@@ -2335,13 +2129,13 @@ Qed.
 
 (* a call that survives a panicking policy is a call with the policy that answers on the
    inputs it survives: everything proved about process_change carries over *)
-Theorem C09_process_change_r_lower : forall fixed x polr emax raddr cid c e r,
-  process_change_r fixed x polr emax raddr cid c e = Ok r ->
-  process_change_v fixed x (lower_policy polr) emax raddr cid c e = Ok r.
+Theorem C09_process_change_r_lower : forall x polr emax raddr cid c e r,
+  process_change_r x polr emax raddr cid c e = Ok r ->
+  process_change x (lower_policy polr) emax raddr cid c e = Ok r.
 Proof.
-  intros fixed x polr emax raddr cid c e r H. unfold process_change_r in H. unfold process_change_v.
+  intros x polr emax raddr cid c e r H. unfold process_change_r in H. unfold process_change.
   destruct (emax =? 1).
-  - destruct (negb (c_best_changed c) && _); [exact H|].
+  - destruct (negb (c_best_changed c)); [exact H|].
     destruct (c_paths c) as [|best rest]; [exact H|].
     destruct (visible x raddr cid best); [|exact H].
     destruct (policy_stage_r x polr cid (c_family c) best) as [o|] eqn:Eo; [|discriminate].
@@ -2373,12 +2167,12 @@ Proof.
 Qed.
 
 (* and with a policy that never panics the two functions are the same *)
-Theorem C09_process_change_r_lift : forall fixed x pol emax raddr cid c e,
-  process_change_r fixed x (lift_policy pol) emax raddr cid c e = process_change_v fixed x pol emax raddr cid c e.
+Theorem C09_process_change_r_lift : forall x pol emax raddr cid c e,
+  process_change_r x (lift_policy pol) emax raddr cid c e = process_change x pol emax raddr cid c e.
 Proof.
-  intros fixed x pol emax raddr cid c e. unfold process_change_r, process_change_v.
+  intros x pol emax raddr cid c e. unfold process_change_r, process_change.
   destruct (emax =? 1).
-  - destruct (negb (c_best_changed c) && _); [reflexivity|].
+  - destruct (negb (c_best_changed c)); [reflexivity|].
     destruct (c_paths c) as [|best rest]; [reflexivity|].
     destruct (visible x raddr cid best); [|reflexivity].
     rewrite policy_stage_r_lift. cbn [rbind]. destruct (policy_stage x pol cid (c_family c) best) as [[a nh]|]; reflexivity.
@@ -2460,7 +2254,7 @@ Theorem C09_policy_prepend_then_export : forall x st pa default emax raddr cid c
   wf_ctx x -> (x_role x = Ebgp \/ x_role x = ConfedEbgp) ->
   pa_left_most pa = false -> pa_asn pa < 4294967296 -> pa_repeat pa <> 0 ->
   (forall p, In p (c_paths c) -> decodable (p_attrs p)) ->
-  process_change_r true x (stmt_policy_r x raddr st (Some pa) default) emax raddr cid c e = Ok r ->
+  process_change_r x (stmt_policy_r x raddr st (Some pa) default) emax raddr cid c e = Ok r ->
   In (Reach d pid nh out s) (fst r) ->
   exists p, In p (c_paths c) /\ s = p_src p /\
     forall pin, path_of (p_attrs p) pin ->
@@ -2473,7 +2267,7 @@ Theorem C09_policy_prepend_then_export : forall x st pa default emax raddr cid c
 Proof.
   intros x st pa default emax raddr cid c e r d pid nh out s Hx Hrole Hl Ha Hrep Hd H Hin.
   apply C09_process_change_r_lower in H.
-  destruct (reach_origin _ _ _ _ _ _ _ _ _ _ _ _ _ _ H Hin) as (p & a & Hp & Hv & Hs & Hst & Hxp).
+  destruct (reach_origin _ _ _ _ _ _ _ _ _ _ _ _ _ H Hin) as (p & a & Hp & Hv & Hs & Hst & Hxp).
   exists p. split; [exact Hp|]. split; [exact Hs|]. intros pin Hpin.
   destruct (policy_stage_inv _ _ _ _ _ _ _ Hst) as (a1 & Hpol & Haa).
   unfold lower_policy, stmt_policy_r in Hpol.
@@ -2498,7 +2292,7 @@ Proof.
 Qed.
 
 Example ex_policy_prepend : exists r nh out segs',
-  process_change_r true (ex_ctx ConfedEbgp 65100)
+  process_change_r (ex_ctx ConfedEbgp 65100)
     (stmt_policy_r (ex_ctx ConfedEbgp 65100) (ip4 10 0 0 1) {| st_nh := None; st_med := None; st_disp := DAccept |}
                    (Some {| pa_asn := 65009; pa_repeat := 2; pa_left_most := false |}) DReject)
     1 (ip4 10 0 0 1) None (ex_change (SrcPeer (ex_peer Ebgp 65002 false))) ENone = Ok r
@@ -2628,14 +2422,14 @@ Qed.
 
 (* One call on a best-only session: afterwards ExportMap::was_sent says, for every
    destination, whether the neighbour holds a route for it, provided it said so before. *)
-Theorem C09_export_map_tracks_view : forall fixed x pol raddr cid c e r,
+Theorem C09_export_map_tracks_view : forall x pol raddr cid c e r,
   not_addpath e ->
-  process_change_v fixed x pol 1 raddr cid c e = Ok r ->
+  process_change x pol 1 raddr cid c e = Ok r ->
   not_addpath (snd r)
   /\ forall d v0, has_entry v0 = em_was_sent e d ->
        has_entry (view_after (fst r) d 0 v0) = em_was_sent (snd r) d.
 Proof.
-  intros fixed x pol raddr cid c e r Hna H. unfold process_change_v in H. cbn [N.eqb Pos.eqb] in H.
+  intros x pol raddr cid c e r Hna H. unfold process_change in H. cbn [N.eqb Pos.eqb] in H.
   assert (Hnone : forall r0, Ok (@nil sinkop, e) = Ok r0 ->
             not_addpath (snd r0) /\ forall d v0, has_entry v0 = em_was_sent e d ->
               has_entry (view_after (fst r0) d 0 v0) = em_was_sent (snd r0) d).
@@ -2650,7 +2444,7 @@ Proof.
     intros d v0 Hv. cbn [view_after]. rewrite N.eqb_refl, andb_true_r.
     rewrite (was_sent_mark_withdrawn e (c_dest c) d Hna). rewrite (N.eqb_sym (c_dest c) d).
     destruct (d =? c_dest c); cbn [negb andb has_entry]; [reflexivity | exact Hv]. }
-  destruct (negb (c_best_changed c) && _); [apply Hnone; exact H|].
+  destruct (negb (c_best_changed c)); [apply Hnone; exact H|].
   destruct (c_paths c) as [|best rest]; [apply Hwd; exact H|].
   destruct (visible x raddr cid best); [|apply Hwd; exact H].
   destruct (policy_stage x pol cid (c_family c) best) as [[a nh]|]; [|apply Hwd; exact H].
@@ -2676,8 +2470,302 @@ Proof.
       destruct (process_change x pol 1 raddr cid c e) as [r1|] eqn:E1; [|discriminate]. cbn [rbind] in H.
       destruct (run_changes x pol 1 raddr cid t (snd r1)) as [r2|] eqn:E2; [|discriminate]. cbn [rbind] in H.
       inversion H; subst r. cbn [fst snd].
-      destruct (C09_export_map_tracks_view true x pol raddr cid c e r1 Hna E1) as [Hn1 Hv1].
+      destruct (C09_export_map_tracks_view x pol raddr cid c e r1 Hna E1) as [Hn1 Hv1].
       destruct (IH (snd r1) r2 Hn1 E2) as [Hn2 Hv2]. split; [exact Hn2|].
       intros d v0 Hv. rewrite view_after_app. apply Hv2. apply Hv1. exact Hv. }
   intros r d H. destruct (G cs ENone r I H) as [_ Hv]. apply Hv. reflexivity.
+Qed.
+
+(* ================================================================ the LLGR period begins: restale_llgr's change stream and the unchanged exporter *)
+(* which path a Reach is about: the best path (best-only) / the path with that id (Add-Path) *)
+Lemma reach_origin_pid : forall x pol emax raddr cid c e r d pid nh out s,
+  process_change x pol emax raddr cid c e = Ok r ->
+  In (Reach d pid nh out s) (fst r) ->
+  exists p, In p (c_paths c) /\ s = p_src p
+    /\ (if emax =? 1 then exists rest, c_paths c = p :: rest else p_lpid p = pid).
+Proof.
+  intros x pol emax raddr cid c e r d pid nh out s H Hin. unfold process_change in H.
+  destruct (emax =? 1).
+  - destruct (negb (c_best_changed c)); [inversion H; subst; contradiction|].
+    destruct (c_paths c) as [|best rest] eqn:Ep.
+    + destruct (em_was_sent e (c_dest c)); inversion H; subst; cbn in Hin; intuition discriminate.
+    + destruct (visible x raddr cid best).
+      * destruct (policy_stage x pol cid (c_family c) best) as [[a nh']|].
+        -- destruct (export_attrs x (llgr_stage best a)) as [a'|]; cbn [rbind] in H; [|discriminate].
+           inversion H; subst r. cbn [fst] in Hin. destruct Hin as [Hin|[]].
+           inversion Hin; subst. exists best. split; [left; reflexivity|]. split; [reflexivity|]. exists rest. reflexivity.
+        -- destruct (em_was_sent e (c_dest c)); inversion H; subst; cbn in Hin; intuition discriminate.
+      * destruct (em_was_sent e (c_dest c)); inversion H; subst; cbn in Hin; intuition discriminate.
+  - destruct (negb (c_any_changed c)); [inversion H; subst; contradiction|].
+    match type of H with rbind (addpath_reaches _ _ _ ?e1 ?top) _ = _ =>
+      destruct (addpath_reaches x (c_dest c) (c_replaced c) e1 top) as [r'|] eqn:Er; [|discriminate] end.
+    cbn [rbind] in H. inversion H; subst r. cbn [fst] in Hin. apply in_app_or in Hin. destruct Hin as [Hin|Hin].
+    + apply in_map_iff in Hin. destruct Hin as (q & Hq & _). discriminate.
+    + destruct (addpath_reaches_In _ _ _ _ _ _ _ _ _ _ _ Er Hin) as (a & Ha & Hx).
+      apply in_flat_map in Ha. destruct Ha as (p & Hp & Ha).
+      destruct (policy_stage x pol cid (c_family c) p) as [[a1 nh1]|]; [|contradiction].
+      destruct Ha as [Ha|[]]. inversion Ha; subst.
+      apply In_firstn in Hp. apply filter_In in Hp. destruct Hp as [Hp _].
+      exists p. auto.
+Qed.
+
+(* best-only: a change that reports the best path as changed touches what the neighbour holds *)
+Theorem C09_llgr_refresh_best_only : forall x pol raddr cid c e r,
+  process_change x pol 1 raddr cid c e = Ok r ->
+  c_best_changed c = true -> em_was_sent e (c_dest c) = true ->
+  exists op, In op (fst r) /\ touches (c_dest c) 0 op = true.
+Proof.
+  intros x pol raddr cid c e r H Hb Hsent.
+  unfold process_change in H. cbn [N.eqb Pos.eqb] in H. rewrite Hb, Hsent in H. cbn [negb] in H.
+  assert (Ht : forall nh a s, touches (c_dest c) 0 (Reach (c_dest c) 0 nh a s) = true)
+    by (intros; cbn [touches]; rewrite !N.eqb_refl; reflexivity).
+  assert (Hu : touches (c_dest c) 0 (Unreach (c_dest c) 0) = true)
+    by (cbn [touches]; rewrite !N.eqb_refl; reflexivity).
+  destruct (c_paths c) as [|best rest].
+  - inversion H; subst. eexists. split; [left; reflexivity | apply Hu].
+  - destruct (visible x raddr cid best).
+    + destruct (policy_stage x pol cid (c_family c) best) as [[a nh]|].
+      * destruct (export_attrs x (llgr_stage best a)) as [a'|]; cbn [rbind] in H; [|discriminate].
+        inversion H; subst. eexists. split; [left; reflexivity | apply Ht].
+      * inversion H; subst. eexists. split; [left; reflexivity | apply Hu].
+    + inversion H; subst. eexists. split; [left; reflexivity | apply Hu].
+Qed.
+
+Lemma addpath_reaches_emits_replaced : forall x d top e r pid a nh s,
+  addpath_reaches x d (Some pid) e top = Ok r ->
+  In (pid, a, nh, s) top ->
+  exists out, In (Reach d pid nh out s) (fst r).
+Proof.
+  intros x d. induction top as [|[[[pid0 a0] nh0] s0] t IH]; intros e r pid a nh s H Hin; [contradiction|].
+  cbn [addpath_reaches] in H. destruct Hin as [Hin|Hin].
+  - inversion Hin; subst. rewrite N.eqb_refl, orb_true_r in H.
+    destruct (export_attrs x a) as [a'|]; cbn [rbind] in H; [|discriminate].
+    destruct (addpath_reaches x d (Some pid) (em_mark_sent e d pid) t) as [r'|]; cbn [rbind] in H; [|discriminate].
+    inversion H; subst. exists a'. left. reflexivity.
+  - destruct (negb (em_contains_path e d pid0) || (pid =? pid0)).
+    + destruct (export_attrs x a0) as [a'|]; cbn [rbind] in H; [|discriminate].
+      destruct (addpath_reaches x d (Some pid) (em_mark_sent e d pid0) t) as [r'|] eqn:Er; cbn [rbind] in H; [|discriminate].
+      inversion H; subst. destruct (IH _ _ _ _ _ _ Er Hin) as [out Hout]. exists out. right. exact Hout.
+    + exact (IH _ _ _ _ _ _ H Hin).
+Qed.
+
+(* Add-Path: a change that names path id [pid] as replaced touches what the neighbour
+   holds for it: re-advertised if still among the paths sent, withdrawn otherwise *)
+Theorem C09_llgr_refresh_addpath : forall x pol emax raddr cid c e r pid,
+  emax <> 1 -> process_change x pol emax raddr cid c e = Ok r ->
+  c_any_changed c = true -> c_replaced c = Some pid ->
+  was_sent_path e (c_dest c) pid ->
+  exists op, In op (fst r) /\ touches (c_dest c) pid op = true.
+Proof.
+  intros x pol emax raddr cid c e r pid Hem H Hany Hrep Hsent.
+  unfold process_change in H. apply N.eqb_neq in Hem. rewrite Hem, Hany, Hrep in H. cbn [negb] in H.
+  match type of H with rbind (addpath_reaches _ _ _ _ ?top) _ = _ => set (TOP := top) in * end.
+  match type of H with rbind (addpath_reaches _ _ _ ?e1 _) _ = _ =>
+    destruct (addpath_reaches x (c_dest c) (Some pid) e1 TOP) as [r'|] eqn:Er; [|cbn [rbind] in H; discriminate] end.
+  cbn [rbind] in H. inversion H; subst r. clear H. cbn [fst].
+  destruct (mem pid (map (fun t : N * list attr * option nexthop * source => fst (fst (fst t))) TOP)) eqn:Ecur.
+  - apply mem_In in Ecur. apply in_map_iff in Ecur. destruct Ecur as ([[[pid' a] nh] s] & Hp & Hin). cbn [fst] in Hp. subst pid'.
+    destruct (addpath_reaches_emits_replaced _ _ _ _ _ _ _ _ _ Er Hin) as [out Hout].
+    exists (Reach (c_dest c) pid nh out s). split; [apply in_or_app; right; exact Hout|].
+    cbn [touches]. rewrite !N.eqb_refl. reflexivity.
+  - exists (Unreach (c_dest c) pid). split; [|cbn [touches]; rewrite !N.eqb_refl; reflexivity].
+    apply in_or_app. left. apply in_map_iff. exists pid. split; [reflexivity|].
+    apply In_sort_n. apply filter_In. split; [exact Hsent|]. rewrite Ecur. reflexivity.
+Qed.
+
+(* ... hence what the neighbour holds for that entry afterwards carries LLGR_STALE *)
+Theorem C09_llgr_view_refreshed : forall x pol emax raddr cid c e r pid v0 v,
+  policy_keeps_decodable pol ->
+  (forall p, In p (c_paths c) -> decodable (p_attrs p)) ->
+  llgr_change_for emax c e pid v0 ->
+  process_change x pol emax raddr cid c e = Ok r ->
+  view_after (fst r) (c_dest c) pid v0 = Some v -> carries_llgr_stale v.
+Proof.
+  intros x pol emax raddr cid c e r pid v0 v Hk Hd Hc H Hview. unfold llgr_change_for in Hc.
+  destruct (view_after_cases _ _ _ _ _ Hview) as [(nh & s & Hin) | (Hv0 & Hnot)].
+  - destruct (reach_origin_pid _ _ _ _ _ _ _ _ _ _ _ _ _ H Hin) as (p & Hp & Hs & Hpid).
+    eapply C09_llgr_stale_marked; [exact Hk | exact Hd | exact H | exact Hin |]. subst s.
+    destruct (emax =? 1).
+    + destruct Hc as (_ & _ & _ & Hst). destruct Hpid as [rest Hrest]. exact (Hst p rest Hrest).
+    + destruct Hc as (_ & _ & _ & Hst). exact (Hst p Hp Hpid).
+  - exfalso. subst v0. destruct (emax =? 1) eqn:Em.
+    + apply N.eqb_eq in Em. subst emax. destruct Hc as (Hpid & Hb & Hws & _). subst pid. cbn [has_entry] in Hws.
+      destruct (C09_llgr_refresh_best_only x pol raddr cid c e r H Hb (eq_sym Hws)) as (op & Hop & Ht).
+      rewrite (Hnot op Hop) in Ht. discriminate.
+    + apply N.eqb_neq in Em. destruct Hc as (Hany & Hrep & Hws & _).
+      destruct (C09_llgr_refresh_addpath x pol emax raddr cid c e r pid Em H Hany Hrep (Hws eq_refl)) as (op & Hop & Ht).
+      rewrite (Hnot op Hop) in Ht. discriminate.
+Qed.
+
+(* ---------------------------------------------------------------- the stream of restale_llgr, best-only sessions *)
+Lemma run_changes_app : forall x pol emax raddr cid cs1 cs2 e r1,
+  run_changes x pol emax raddr cid cs1 e = Ok r1 ->
+  run_changes x pol emax raddr cid (cs1 ++ cs2) e
+  = rbind (run_changes x pol emax raddr cid cs2 (snd r1)) (fun r2 => Ok (fst r1 ++ fst r2, snd r2)).
+Proof.
+  intros x pol emax raddr cid. induction cs1 as [|c t IH]; intros cs2 e r1 H.
+  - cbn in H. inversion H; subst. cbn [app fst snd].
+    destruct (run_changes x pol emax raddr cid cs2 e) as [[o e']|]; reflexivity.
+  - cbn [run_changes app] in *.
+    destruct (process_change x pol emax raddr cid c e) as [ra|]; [|discriminate]. cbn [rbind] in *.
+    destruct (run_changes x pol emax raddr cid t (snd ra)) as [rb|] eqn:Eb; [|discriminate]. cbn [rbind] in H.
+    inversion H; subst r1. rewrite (IH cs2 _ _ Eb). cbn [fst snd].
+    destruct (run_changes x pol emax raddr cid cs2 (snd rb)) as [rc|]; cbn [rbind]; [|reflexivity].
+    cbn [fst snd]. rewrite app_assoc. reflexivity.
+Qed.
+
+(* the changes after the first one of a stream report best_changed = false: a best-only
+   neighbour skips them *)
+Lemma marked_changes_false_skipped : forall x pol raddr cid fam d paths marked e,
+  run_changes x pol 1 raddr cid (marked_changes fam d false paths marked) e = Ok ([], e).
+Proof.
+  intros x pol raddr cid fam d paths. induction marked as [|pid t IH]; intro e; [reflexivity|].
+  cbn [marked_changes run_changes]. unfold process_change at 1. cbn [N.eqb Pos.eqb c_best_changed negb rbind snd fst].
+  rewrite IH. reflexivity.
+Qed.
+
+(* Best-only neighbour, any destination: when the new best path is one of the marked
+   peer's, exporting restale_llgr's stream leaves the neighbour with a copy that carries
+   LLGR_STALE (or with nothing). *)
+Theorem C09_llgr_stream_best_only : forall x pol raddr cid fam d old any addr best rest e r v0 v,
+  policy_keeps_decodable pol ->
+  (forall p, In p (best :: rest) -> decodable (p_attrs p)) ->
+  src_raddr (p_src best) = addr -> src_llgr (p_src best) = true ->
+  has_entry v0 = em_was_sent e d ->
+  run_changes x pol 1 raddr cid (restale_llgr_changes fam d old any addr (best :: rest)) e = Ok r ->
+  view_after (fst r) d 0 v0 = Some v -> carries_llgr_stale v.
+Proof.
+  intros x pol raddr cid fam d old any addr best rest e r v0 v Hk Hd Ha Hl Hv0 H Hview.
+  unfold restale_llgr_changes in H. cbn [filter map] in H.
+  assert (Eb : ip_eqb (src_raddr (p_src best)) addr = true) by (apply ip_eqb_eq; exact Ha).
+  rewrite Eb in H. cbn [map] in H. rewrite N.eqb_refl, orb_true_r in H. cbn [orb marked_changes] in H.
+  set (c0 := {| c_family := fam; c_dest := d; c_best_changed := true; c_any_changed := true;
+                c_replaced := Some (p_lpid best); c_paths := best :: rest |}) in *.
+  cbn [run_changes] in H.
+  destruct (process_change x pol 1 raddr cid c0 e) as [r1|] eqn:E1; [|discriminate]. cbn [rbind] in H.
+  rewrite marked_changes_false_skipped in H. cbn [rbind fst snd] in H. inversion H; subst r. clear H.
+  cbn [fst] in Hview. rewrite app_nil_r in Hview.
+  apply (C09_llgr_view_refreshed x pol 1 raddr cid c0 e r1 0 v0 v Hk Hd); [|exact E1|exact Hview].
+  unfold llgr_change_for. cbn [N.eqb Pos.eqb c0 c_best_changed c_dest c_paths].
+  repeat split; auto. intros b rs E. inversion E; subst. exact Hl.
+Qed.
+
+(* ---------------------------------------------------------------- the one-path scenario (tied to the real Table) *)
+Lemma llgr_stream_new : forall ps nh attrs,
+  llgr_stream true ps nh attrs
+  = [ {| c_family := IPV4_UNICAST; c_dest := 1; c_best_changed := true; c_any_changed := true;
+         c_replaced := Some 1; c_paths := [llgr_path ps true nh attrs] |} ].
+Proof.
+  intros ps nh attrs. unfold llgr_stream, restale_llgr_changes. cbn [filter llgr_path p_src src_raddr set_llgr ps_raddr].
+  assert (E : ip_eqb (ps_raddr ps) (ps_raddr ps) = true) by (apply ip_eqb_eq; reflexivity).
+  rewrite E. reflexivity.
+Qed.
+
+Ltac llgr_simp H :=
+  cbn [flat_map app map fst snd p_lpid p_src filter mem negb orb andb N.eqb Pos.eqb N.leb N.compare Pos.compare
+       Pos.compare_cont sort_n fold_right insert_sorted fold_left em_sent_path_ids em_contains_path em_mark_sent
+       em_mark_withdrawn alookup aset aremove add_n remove_n addpath_reaches src_llgr set_llgr ps_llgr rbind] in H.
+
+(* With restale_llgr's stream (03ea310) and the unchanged exporter: whatever a neighbour
+   holds for the route once the LLGR period of its source has begun carries LLGR_STALE (it
+   was re-advertised with the community, or withdrawn). *)
+Theorem C09_llgr_stale_readvertised : forall x pol emax raddr cid ps nh attrs ops1 ops2 e v,
+  policy_keeps_decodable pol -> decodable attrs ->
+  llgr_scenario x pol emax raddr cid ps nh attrs = Ok (ops1, ops2, e) ->
+  view_after (ops1 ++ ops2) 1 (if emax =? 1 then 0 else 1) None = Some v ->
+  carries_llgr_stale v.
+Proof.
+  intros x pol emax raddr cid ps nh attrs ops1 ops2 e v Hk Hd Hsc Hview.
+  unfold llgr_scenario, llgr_scenario_v in Hsc. rewrite llgr_stream_new in Hsc.
+  destruct (process_change x pol emax raddr cid (llgr_change1 ps nh attrs)
+              (if emax =? 1 then ENone else EAddPath [])) as [r1|] eqn:E1; [|discriminate].
+  cbn [rbind run_changes] in Hsc.
+  match type of Hsc with rbind (rbind (process_change _ _ _ _ _ ?c2 _) _) _ = _ => set (C2 := c2) in * end.
+  destruct (process_change x pol emax raddr cid C2 (snd r1)) as [r2|] eqn:E2; [|discriminate].
+  cbn [rbind fst snd] in Hsc. inversion Hsc; subst ops1 ops2 e. clear Hsc.
+  rewrite app_nil_r in Hview. rewrite view_after_app in Hview.
+  assert (Hdp : forall p, In p (c_paths C2) -> decodable (p_attrs p)) by (intros p [Hp|[]]; subst p; exact Hd).
+  change 1 with (c_dest C2) in Hview at 1.
+  apply (C09_llgr_view_refreshed x pol emax raddr cid C2 (snd r1) r2 (if emax =? 1 then 0 else 1)
+           (view_after (fst r1) 1 (if emax =? 1 then 0 else 1) None) v Hk Hdp); [|exact E2|exact Hview].
+  unfold llgr_change_for. destruct (emax =? 1) eqn:Em.
+  - (* best-only: the export map tracks the view *)
+    apply N.eqb_eq in Em. subst emax.
+    destruct (C09_export_map_tracks_view x pol raddr cid _ ENone r1 I E1) as [_ Ht].
+    split; [reflexivity|]. split; [reflexivity|]. split.
+    + apply (Ht 1 None). reflexivity.
+    + intros best rest E. inversion E; subst. reflexivity.
+  - split; [reflexivity|]. split; [reflexivity|]. split.
+    + (* what the first phase advertised is recorded in the Add-Path map *)
+      intro Hhas. unfold process_change in E1. rewrite Em in E1.
+      cbn [llgr_change1 c_any_changed c_paths c_dest c_family c_replaced negb filter] in E1.
+      destruct (visible x raddr cid _) eqn:V1 in E1.
+      2:{ rewrite !firstn_nil in E1. cbn in E1. inversion E1; subst r1. cbn in Hhas. discriminate. }
+      rewrite !firstn_single in E1.
+      destruct (N.to_nat emax) as [|n] eqn:En.
+      { cbn in E1. inversion E1; subst r1. cbn in Hhas. discriminate. }
+      cbn [flat_map app] in E1.
+      destruct (policy_stage x pol cid IPV4_UNICAST _) as [[a1 nh1]|] eqn:S1 in E1.
+      2:{ cbn in E1. inversion E1; subst r1. cbn in Hhas. discriminate. }
+      llgr_simp E1.
+      destruct (export_attrs x _) as [o1|] eqn:X1 in E1; [|discriminate]. llgr_simp E1.
+      inversion E1; subst r1. unfold was_sent_path. cbn. left. reflexivity.
+    + intros p [Hp|[]] _. subst p. reflexivity.
+Qed.
+
+(* With the stream restale_llgr reported before 03ea310 (best_changed = false when the best
+   keeps its place, no path named as replaced) the same statement is false: the unchanged
+   exporter skips the change and a best-only eBGP neighbour keeps the copy without
+   LLGR_STALE (finding C09-1 = C01-llgr-stale-not-resent; the case replayed on the real
+   code, corpus/C09). *)
+Definition old_stream_llgr_statement : Prop :=
+  forall x pol emax raddr cid ps nh attrs ops1 ops2 e v,
+    policy_keeps_decodable pol -> decodable attrs ->
+    llgr_scenario_v false x pol emax raddr cid ps nh attrs = Ok (ops1, ops2, e) ->
+    view_after (ops1 ++ ops2) 1 (if emax =? 1 then 0 else 1) None = Some v ->
+    carries_llgr_stale v.
+
+Lemma carries_llgr_stale_dec_false : forall out,
+  find_code COMMUNITY out = None -> ~ carries_llgr_stale out.
+Proof. intros out H (c & pre & post & E & _). congruence. Qed.
+
+Theorem C09_llgr_stale_readvertised_refuted : ~ old_stream_llgr_statement.
+Proof.
+  intro H.
+  pose (attrs := [mk_val ORIGIN 64 0; mk_bin AS_PATH 64 (encode_path [(2, [65002])])]).
+  assert (Hd : decodable attrs).
+  { unfold decodable, attrs. split; [|split]; intros a Hin; cbn [In] in Hin.
+    - intro Ho. repeat (destruct Hin as [Hin|Hin]; [subst a; discriminate|]). contradiction.
+    - intro Hc. repeat (destruct Hin as [Hin|Hin]; [subst a; try discriminate|]); [|contradiction].
+      exists [(2, [65002])]. unfold is_path. cbn [mk_bin a_code a_data]. repeat split. repeat constructor; cbn; lia.
+    - intro Hc. repeat (destruct Hin as [Hin|Hin]; [subst a; discriminate|]). contradiction. }
+  specialize (H (ex_ctx Ebgp 0) no_policy 1 (ip4 10 0 0 1) None (ex_peer Ebgp 65002 false) (Some (NhV4 [10; 0; 0; 9])) attrs).
+  destruct (llgr_scenario_v false (ex_ctx Ebgp 0) no_policy 1 (ip4 10 0 0 1) None (ex_peer Ebgp 65002 false)
+              (Some (NhV4 [10; 0; 0; 9])) attrs) as [[[o1 o2] e]|] eqn:E; [|vm_compute in E; discriminate].
+  vm_compute in E. inversion E; subst o1 o2 e. clear E.
+  refine (carries_llgr_stale_dec_false _ _ (H _ _ _ _ (filter_only_decodable _ filter_only_no_policy) Hd eq_refl eq_refl)).
+  reflexivity.
+Qed.
+
+(* the scenario is real: the route is advertised in the first phase and again, marked, in the second *)
+Example ex_llgr_scenario : exists nh1 a1 s1 nh2 a2 s2 e,
+  llgr_scenario (ex_ctx Ebgp 0) no_policy 1 (ip4 10 0 0 1) None (ex_peer Ebgp 65002 false) (Some (NhV4 [10; 0; 0; 9])) ex_attrs
+  = Ok ([Reach 1 0 nh1 a1 s1], [Reach 1 0 nh2 a2 s2], e).
+Proof. do 7 eexists. vm_compute. reflexivity. Qed.
+
+(* a two-path destination: both paths of the marked peer are named, best_changed goes with the first *)
+Example ex_restale_stream :
+  let p1 := {| p_lpid := 1; p_src := SrcPeer (ex_peer Ebgp 65002 true); p_nh := None; p_attrs := [] |} in
+  let p2 := {| p_lpid := 2; p_src := SrcPeer (ex_peer Ebgp 65002 true); p_nh := None; p_attrs := [] |} in
+  map (fun c => (c_best_changed c, c_any_changed c, c_replaced c))
+      (restale_llgr_changes IPV4_UNICAST 1 (Some 1) true (ip4 10 0 0 2) [p1; p2])
+  = [(true, true, Some 1); (false, true, Some 2)].
+Proof. vm_compute. reflexivity. Qed.
+
+(* since 0db415e / a62a64e the prepends cannot panic on any byte string (the one-byte
+   buffer is guarded) *)
+Lemma prepend_total : forall ty asn buf, exists b, path_prepend_b ty asn buf = Ok b.
+Proof.
+  intros ty asn buf. unfold path_prepend_b. destruct buf as [|b0 rest]; [eauto|].
+  destruct (b0 =? ty); [|eauto]. destruct rest as [|b1 rest']; [eauto|]. destruct (b1 <? 255); eauto.
 Qed.
